@@ -70,6 +70,7 @@ func checkC13(c *Ctx) {
 	}
 	c.rule("OWN-resolve-inputs", "node / root lookups depend on the key and the stored bytes only", 4)
 	checkResolveInputs(c, "OWN-resolve-inputs")
+	checkVarintBoundaries(c, "FORMAT-primitives")
 	c.rule("FORMAT-narrowing", "a decoded integer stored into a narrower field is accepted exactly over that field's range (the range the encoder emits)", 3)
 	checkNarrowing(c)
 	checkFormatX(c, l, "FORMAT-primitives", "encoding.EncodeBytes", l.Func("internal/encoding", "EncodeBytes"), false, true, []string{"U(len(arg1)) W(arg1)"})
@@ -482,5 +483,56 @@ func checkResolveInputs(c *Ctx, rule string) {
 			pos = l.ipos(at)
 		}
 		c.decide(rule, name+" resolves from the key and the stored bytes only", pos, at == nil, "reads no cached version counter", "the lookup reads nodeDB."+what+": the same stored database resolves differently depending on whether / how far the counter has been initialised or moved by pruning in this process")
+	}
+}
+
+// checkVarintBoundaries (C13, C02): in the hand-written varint fast paths of
+// internal/encoding a value is continued while it has 8 or more significant
+// bits: the only admissible comparisons against the continuation boundary are
+// `x >= 0x80` / `x < 0x80` (equivalently `x > 0x7f` / `x <= 0x7f`).  An
+// off-by-one here mis-encodes exactly the lengths 128, 16384, … — the hash is
+// computed through another writer and stays right, the stored bytes do not.
+func checkVarintBoundaries(c *Ctx, rule string) {
+	l := c.L
+	p := l.Pkg("internal/encoding")
+	if p == nil {
+		c.anchorMissing(rule, "internal/encoding")
+		return
+	}
+	n := 0
+	for _, fn := range l.SrcFuncs {
+		if l.pkgPathOf(fn) != l.ModPath+"/internal/encoding" {
+			continue
+		}
+		allInstrs(fn, func(in ssa.Instruction) {
+			bo, ok := in.(*ssa.BinOp)
+			if !ok {
+				return
+			}
+			switch bo.Op {
+			case token.LSS, token.LEQ, token.GTR, token.GEQ:
+			default:
+				return
+			}
+			x, y, op := bo.X, bo.Y, bo.Op
+			if _, isK := constInt(x); isK {
+				x, y = y, x
+				op = map[token.Token]token.Token{token.LSS: token.GTR, token.GTR: token.LSS, token.LEQ: token.GEQ, token.GEQ: token.LEQ}[op]
+			}
+			k, isK := constInt(y)
+			if !isK || (k != 0x80 && k != 0x7f) {
+				return
+			}
+			if _, isInt := x.Type().Underlying().(*types.Basic); !isInt {
+				return
+			}
+			n++
+			ok2 := (k == 0x80 && (op == token.GEQ || op == token.LSS)) || (k == 0x7f && (op == token.GTR || op == token.LEQ))
+			c.decide(rule, fmt.Sprintf("%s compares with the varint continuation boundary (%s 0x%x)", l.fname(fn), op, k), l.ipos(in), ok2, "continues exactly while the value needs more than 7 bits",
+				fmt.Sprintf("the varint loop compares `x %s 0x%x`: values equal to the boundary (128, 16384, …) are encoded one byte short / long, so a 128-byte key or value gets a wrong length prefix in the stored node", op, k))
+		})
+	}
+	if n < 1 {
+		c.anchorMissing(rule, "no varint boundary comparison found in internal/encoding")
 	}
 }
